@@ -25,8 +25,11 @@ INCLUDE = os.path.join(REPO, "Include")
 LEAN_DIR = os.path.join(VERIF, "lean")
 BUILD = os.path.join(VERIF, "build")
 HARNESS = os.path.join(VERIF, "harness")
-EVIDENCE = os.path.join(VERIF, "evidence")
-REPLAYS = os.path.join(VERIF, "replays")
+# VERIF_OUT_DIR (used by tools/reseed_all.py for runs against mutated scratch trees) redirects evidence and
+# replay files so that such runs never touch the committed evidence
+_OUT = os.environ.get("VERIF_OUT_DIR") or VERIF
+EVIDENCE = os.path.join(_OUT, "evidence")
+REPLAYS = os.path.join(_OUT, "replays")
 FINDINGS_FILE = os.path.join(VERIF, "known-findings.txt")
 GUARD = "QENTEM_VERIF"
 
